@@ -350,6 +350,8 @@ where
                                 dynamic_props.insert("textContent".into());
                             }
                             Directive::VModel(directive) => {
+                                // hygienic, so it can't capture a user's `$event`
+                                let event_ident = private_ident!("$event");
                                 if is_component {
                                     props.push(PropOrSpread::Prop(Box::new(Prop::KeyValue(
                                         KeyValueProp {
@@ -448,7 +450,7 @@ where
                                         value: Box::new(Expr::Arrow(ArrowExpr {
                                             span: DUMMY_SP,
                                             params: vec![Pat::Ident(BindingIdent {
-                                                id: quote_ident!("$event").into(),
+                                                id: event_ident.clone(),
                                                 type_ann: None,
                                             })],
                                             body: Box::new(BlockStmtOrExpr::Expr(Box::new(
@@ -461,9 +463,7 @@ where
                                                             expr: Box::new(directive.value),
                                                         }),
                                                     ),
-                                                    right: Box::new(Expr::Ident(
-                                                        quote_ident!("$event").into(),
-                                                    )),
+                                                    right: Box::new(Expr::Ident(event_ident)),
                                                 }),
                                             ))),
                                             is_async: false,
